@@ -729,3 +729,4 @@ def run(prog, R, tier):
     codecrules.r_rcode(prog, R, "R-C03-RCODE")
     codecrules.r_optscan(prog, R, "R-C03-OPTSCAN")
     codecrules.r_qdcount(prog, R, "R-C03-QDCOUNT")
+    codecrules.r_optlen(prog, R, "R-C03-OPTLEN")
